@@ -4,6 +4,7 @@ import (
 	"fmt"
 	"os"
 	"path/filepath"
+	"strings"
 	"sync/atomic"
 	"testing"
 	"time"
@@ -59,8 +60,9 @@ func RemoveAll(dir string) {
 }
 
 type ScriptFile struct {
-	Name string // subtest name; the file is <name>.txt
+	Name string // subtest name; the file is <name>.txt (or <name><Ext>)
 	Data []byte
+	Ext  string // "" = ".txt"; ".txtar" is the other extension RunT recognises
 }
 
 type RunOpts struct {
@@ -69,6 +71,10 @@ type RunOpts struct {
 	Parallel  bool
 	Deadline  time.Duration // 0 = none
 	ScriptDir string        // where script files are written (default: <root>/scripts)
+	// UseDir passes the script directory as Params.Dir instead of listing Params.Files (ignored when a script name
+	// contains a directory or the directory order - by file name - differs from the given order). The directory then
+	// also holds files that are not scripts.
+	UseDir bool
 }
 
 type RunResult struct {
@@ -91,13 +97,28 @@ func RunInProcess(root string, scripts []ScriptFile, o RunOpts) RunResult {
 	p := o.Params
 	p.Dir = ""
 	p.Files = nil
-	for _, s := range scripts {
-		f := filepath.Join(sdir, s.Name+".txt")
+	useDir := o.UseDir
+	for i, s := range scripts {
+		ext := s.Ext
+		if ext == "" {
+			ext = ".txt"
+		}
+		f := filepath.Join(sdir, s.Name+ext)
 		os.MkdirAll(filepath.Dir(f), 0o777) // names may contain directories (scripts with equal base names)
 		os.WriteFile(f, s.Data, 0o666)
 		p.Files = append(p.Files, f)
+		if strings.Contains(s.Name, "/") || (i > 0 && filepath.Base(p.Files[i-1]) >= filepath.Base(f)) {
+			useDir = false
+		}
 	}
 	res.Files = p.Files
+	if useDir {
+		p.Dir, p.Files = sdir, nil
+		os.WriteFile(filepath.Join(sdir, "README.md"), []byte("not a script\n"), 0o666)
+		os.WriteFile(filepath.Join(sdir, "old.txt.bak"), []byte("exec false\n"), 0o666)
+		os.MkdirAll(filepath.Join(sdir, "subdir"), 0o777)
+		os.WriteFile(filepath.Join(sdir, "subdir", "nested.txt"), []byte("exec false\n"), 0o666)
+	}
 	if o.Retain {
 		res.WorkRoot = filepath.Join(root, "work")
 		os.MkdirAll(res.WorkRoot, 0o777)
@@ -111,4 +132,17 @@ func RunInProcess(root string, scripts []ScriptFile, o RunOpts) RunResult {
 	res.Subs, res.Top = rt.RunT(p)
 	res.Elapsed = time.Since(start)
 	return res
+}
+
+// LayoutFor derives, from the script text, how the script file is presented to RunT: extension .txt or .txtar, listed in
+// Params.Files or found through Params.Dir. A pure function of the text, so a replayed case uses the same layout.
+func LayoutFor(data []byte) (ext string, useDir bool) {
+	h := uint32(2166136261)
+	for _, b := range data {
+		h = (h ^ uint32(b)) * 16777619
+	}
+	if h%3 == 0 {
+		ext = ".txtar"
+	}
+	return ext, (h>>8)%2 == 0
 }
